@@ -4,7 +4,7 @@ import (
 	"encoding/binary"
 	"fmt"
 	"hash/fnv"
-	"runtime"
+	"os"
 	"sort"
 	"strconv"
 	"strings"
@@ -344,6 +344,9 @@ func c20Tasks(depth int) []c20Task {
 	pre := [][]model.Op{
 		{{K: model.OpRegister, F: 3}},
 		{nP, {K: model.OpNew, Path: model.PathMapN, Cs: ct.Of(ct.P, ct.Q)}, {K: model.OpNew, Path: model.PathMapN, Cs: ct.Of(ct.P, ct.R1), T: rel(ct.R1, 0)}, {K: model.OpRegister, F: 3}},
+		// several rows in one table and a query in the middle of it (closing it there leaves the cursor inside the table)
+		{nP, nP, nP, {K: model.OpOpen, F: 0, Q: 0}, {K: model.OpNext, Q: 0}},
+		{{K: model.OpNew, Path: model.PathMapN, Cs: ct.Of(ct.P, ct.Q)}, {K: model.OpNew, Path: model.PathMapN, Cs: ct.Of(ct.P, ct.Q)}, {K: model.OpRegister, F: 3}, {K: model.OpOpen, F: 3, Q: 0}, {K: model.OpNext, Q: 0}, {K: model.OpOpen, F: 2, Q: 1}, {K: model.OpNext, Q: 1}},
 	}
 	var tasks []c20Task
 	for _, cfg := range cfgs([]int{1}, []int{0, 40}, []api.RelMode{api.RelByIdx}, u) {
@@ -435,27 +438,20 @@ func init() {
 			r.Digests = log
 			return r
 		}
-		digests := make([]string, len(tasks))
-		counts := make([]int, len(tasks))
-		var wg sync.WaitGroup
-		sem := make(chan struct{}, runtime.NumCPU())
-		for k := range tasks {
-			wg.Add(1)
-			sem <- struct{}{}
-			go func(k int) {
-				defer wg.Done()
-				defer func() { <-sem }()
-				d, n := c20RunTask(tasks[k], depth, nil)
-				digests[k] = strconv.FormatUint(d, 16)
-				counts[k] = n
-			}(k)
+		shard, nshard := 0, 1
+		if len(args) >= 4 && args[1] == "shard" {
+			shard, _ = strconv.Atoi(args[2])
+			nshard, _ = strconv.Atoi(args[3])
 		}
-		wg.Wait()
-		for _, n := range counts {
+		for k := range tasks {
+			if k%nshard != shard {
+				continue
+			}
+			d, n := c20RunTask(tasks[k], depth, nil)
+			r.Digests = append(r.Digests, fmt.Sprintf("%d:%x", k, d))
 			r.Cases += n
 		}
 		r.Steps = r.Cases * (depth + 2)
-		r.Digests = digests
 		return r
 	}
 
@@ -471,10 +467,52 @@ func init() {
 			}
 			tags := []string{"", "ark_tiny", "ark_debug", "ark_tiny,ark_debug"}
 			res := make([]*SubResult, len(tags))
+			os.Setenv("GOMAXPROCS", "1")
+			const shards = 4
+			all := make([][]*SubResult, len(tags))
+			errs := make([]error, len(tags)*shards)
+			var wg sync.WaitGroup
 			for i, tg := range tags {
-				r, err := RunSub("C20", tg, ts)
-				if err != nil {
+				if _, err := BuildTagged(tg); err != nil {
+					os.Unsetenv("GOMAXPROCS")
 					return err
+				}
+				all[i] = make([]*SubResult, shards)
+				for sh := 0; sh < shards; sh++ {
+					wg.Add(1)
+					go func(i, sh int, tg string) {
+						defer wg.Done()
+						all[i][sh], errs[i*shards+sh] = RunSubPrebuilt("C20", tg, ts, "shard", strconv.Itoa(sh), strconv.Itoa(shards))
+					}(i, sh, tg)
+				}
+			}
+			wg.Wait()
+			os.Unsetenv("GOMAXPROCS")
+			for _, e := range errs {
+				if e != nil {
+					return e
+				}
+			}
+			for i, tg := range tags {
+				// merge shards: digests are "k:hash" for subtree k
+				r := &SubResult{Tags: all[i][0].Tags}
+				byK := map[int]string{}
+				maxK := -1
+				for _, p := range all[i] {
+					r.Cases += p.Cases
+					r.Steps += p.Steps
+					for _, d := range p.Digests {
+						var k int
+						var h string
+						fmt.Sscanf(d, "%d:%s", &k, &h)
+						byK[k] = h
+						if k > maxK {
+							maxK = k
+						}
+					}
+				}
+				for k := 0; k <= maxK; k++ {
+					r.Digests = append(r.Digests, byK[k])
 				}
 				res[i] = r
 				rep.PerConfig = append(rep.PerConfig, fmt.Sprintf("C20 build tags=%q (%s): tasks=%d histories=%d", tg, r.Tags, len(r.Digests), r.Cases))
